@@ -206,6 +206,13 @@ func (w *World) Message(a *app.ShutterApp, op Op) *shmsg.Message {
 		}
 		return shmsg.NewBatchConfig(c.Act, u.AddrsOf(c.Members), c.Threshold, uint64(idx))
 	case "checkin":
+		if op.B == 1 {
+			// well-formed validator key, malformed encryption key (uncompressed form): the
+			// application must refuse it and must not count it
+			return &shmsg.Message{Payload: &shmsg.Message_CheckIn{CheckIn: &shmsg.CheckIn{
+				ValidatorPublicKey: u.ValKey(op.Sender, op.A), EncryptionPublicKey: crypto.FromECDSAPub(&u.Keys[op.Sender].PublicKey),
+			}}}
+		}
 		return shmsg.NewCheckIn(u.ValKey(op.Sender, op.A), ecies.ImportECDSAPublic(&u.Keys[op.Sender].PublicKey))
 	case "seen":
 		return shmsg.NewBlockSeen(w.SeenBlocks[op.A])
